@@ -25,9 +25,9 @@ Lemma flush_live g s objs ents assoc :
   d_live (s_committed (flush g s objs ents assoc)) = d_live (s_committed s).
 Proof.
   unfold flush. destruct (g_versioning g); simpl; [|auto].
-  fold (before_flush g s objs). set (s1 := before_flush g s objs).
+  fold (before_flush g s objs ents). set (s1 := before_flush g s objs ents).
   assert (E1 : d_live (s_committed s1) = d_live (s_committed s)).
-  { unfold s1, before_flush. destruct (existsb (obj_modified g) objs); [|reflexivity].
+  { unfold s1, before_flush. destruct (existsb (obj_modified g) objs || existsb (tracked g) ents); [|reflexivity].
     destruct (u_cur (s_uow s)); [reflexivity | apply create_transaction_live]. }
   destruct (u_cur (s_uow s1)) as [T|]; [|simpl; auto].
   destruct (fold_left (track g) ents (u_ops (s_uow s1))) as [|o l]; [simpl; auto|].
